@@ -62,7 +62,7 @@ def gen_case(seed, idx):
     case = {"idx": idx, "world": w, "place": place, "refusal": refusal, "options": opts,
             "cwd": rng.choice(["proj", "proj", "root", "elsewhere"]),
             "pages": rng.random() < 0.5, "copy_subdir": rng.random() < 0.5,
-            "copy_outside": rng.choice([None, None, "abs", "rel_existing"]), "two_src": rng.random() < 0.3, "page_symlink": rng.random() < 0.35,
+            "copy_outside": rng.choice([None, None, "abs", "rel_existing"]), "two_src": rng.random() < 0.3, "page_symlink": rng.random() < 0.35, "same_basename": rng.random() < 0.35,
             "media": rng.choice([None, "ok", "missing"]), "css": rng.random() < 0.4,
             "favicon": rng.random() < 0.3, "mathjax": rng.random() < 0.3, "extra_ft": rng.random() < 0.3,
             "graph_dir": rng.choice([None, "in", "out", "out_abs", "holds_inputs"]) if opts["graph"] else None,
@@ -233,6 +233,9 @@ def build(case, seed, root):
     if case.get("extra_ft"):
         opts["extra_filetypes"] = "inc !"
         files["proj/src/defs.inc"] = "!! documented extra file\ninteger :: incvar\n"
+    if case.get("same_basename") and not case["refusal"]:
+        files["proj/src/core/util.f90"] = "module core_util\n  !! util in core\nend module core_util\n"
+        files["proj/src/legacy/util.f90"] = "module legacy_util\n  !! util in legacy\nend module legacy_util\n"
     if case.get("two_src") and not case["refusal"]:
         opts["src_dir"] = ["./src", "./more/src2"]
         files["proj/more/src2/extra.f90"] = "module extramod\n  !! second source dir\nend module extramod\n"
@@ -535,7 +538,7 @@ def case_candidates(case):
             c = copy.deepcopy(case)
             c["world"] = w
             yield desc, c
-    for k in ("pages", "copy_subdir", "css", "favicon", "mathjax", "extra_ft", "page_symlink", "two_src"):
+    for k in ("pages", "copy_subdir", "css", "favicon", "mathjax", "extra_ft", "page_symlink", "two_src", "same_basename"):
         if case.get(k):
             c = copy.deepcopy(case)
             c[k] = False
